@@ -405,8 +405,19 @@ def embedded_root():
                  desc="embedded struct at the root")
 
 
+def mixnest():
+    return Shape("mixnest", [F("G", "opt", [F("H", "req", [F("X", "opt", "int32"), F("Y", "req", "string")]), F("Z", "req", "int64")]),
+                             F("R", "req", [F("O", "opt", [F("P", "req", "float32"), F("Q", "opt", "bool")])]),
+                             F("L", "rep", [F("M", "req", [F("N", "req", "uint32")])])],
+                 desc="groups of different repetition first introduced by the same leaf (opt>req, req>opt, rep>req)")
+
+
+def flatnum():
+    return Shape("flatnum", [F("A", "req", "int64"), F("B", "req", "float64")], desc="two required numeric columns (large pages)")
+
+
 def portfolio():
-    return [flat24(), person(), document(), opt3(), boolopt(), reqnest(), embedded_root()]
+    return [flat24(), person(), document(), opt3(), boolopt(), reqnest(), embedded_root(), mixnest(), flatnum()]
 
 
 def build_all():
@@ -520,13 +531,21 @@ def enum_values(rng, fields, cap=40, rng_struct=None):
             return [["N"]] + one()
         outs = [["L", "0"]]
         o = one()
+        o2 = one()      # a second draw of the leaf values: the two elements of a list differ in content, not only in structure
+        if f.is_leaf():
+            for _ in range(8):
+                if o2 != o:
+                    break
+                o2 = one()
+        if len(o2) != len(o):
+            o2 = o
         # element structures are sampled, not taken from the front, so that full and empty elements both occur
-        picks = o if len(o) <= 3 else [o[0], o[-1]] + rs.sample(o[1:-1], 1)
-        for x in picks:
-            outs.append(["L", "1"] + x)
-        for x in picks:
-            for y in picks:
-                outs.append(["L", "2"] + x + y)
+        idx = list(range(len(o))) if len(o) <= 3 else [0, len(o) - 1] + rs.sample(range(1, len(o) - 1), 1)
+        for i in idx:
+            outs.append(["L", "1"] + o[i])
+        for i in idx:
+            for j in idx:
+                outs.append(["L", "2"] + o[i] + o2[j])
         return outs
 
     def group_opts(fs):
